@@ -2,6 +2,7 @@ package main
 
 import (
 	"fmt"
+	"os"
 	"math/big"
 	"strconv"
 	"strings"
@@ -557,6 +558,7 @@ func genC04(g *Gen, emit func(g *Gen, p addchain.Program), maxLen, sample7 int) 
 	// the one-element chain
 	emit(g, addchain.Program{})
 	g.Count("empty")
+	c04FileProbe(g)
 
 	// every duplicate-free program up to the bound, both operand orders
 	for n := 1; n <= maxLen; n++ {
@@ -675,6 +677,52 @@ func genC04(g *Gen, emit func(g *Gen, p addchain.Program), maxLen, sample7 int) 
 		p := c04Random(g, 20+g.R.Intn(181))
 		emit(g, p)
 		g.Count("random-long")
+	}
+}
+
+// c04FileProbe: the file-level API (acc.Save, acc.LoadFile, acc.Write, acc.LoadReader). A long script
+// is saved, a short one is saved over it (and the other way round), and the file is loaded back: it
+// must hold exactly the last program saved.
+func c04FileProbe(g *Gen) {
+	dir, err := os.MkdirTemp("", "c04files")
+	if err != nil {
+		return
+	}
+	defer os.RemoveAll(dir)
+	long := c04Random(g, 150)
+	short := addchain.Program{{I: 0, J: 0}, {I: 1, J: 0}}
+	empty := addchain.Program{}
+	path := dir + "/chain.acc"
+	for step, p := range []addchain.Program{long, short, long, empty, short} {
+		msg := ""
+		pn := safe(func() {
+			prog, err := acc.Decompile(p)
+			if err != nil {
+				msg = "decompile: " + err.Error()
+				return
+			}
+			if err := acc.Save(path, prog); err != nil {
+				msg = "save: " + err.Error()
+				return
+			}
+			back, err := acc.LoadFile(path)
+			if err != nil {
+				msg = "load: " + err.Error()
+				return
+			}
+			want := p.Evaluate()
+			if !equalInts(back.Chain, want) {
+				msg = fmt.Sprintf("file holds chain %s, saved %s", encInts(back.Chain), encInts(want))
+			}
+		})
+		if pn != "" {
+			msg = "panic: " + pn
+		}
+		g.Count("file-save-load")
+		if msg != "" {
+			g.Notes = append(g.Notes, fmt.Sprintf("VIOLATION: acc.Save then acc.LoadFile on the same path, step %d (program of %d ops): %s", step, len(p), msg))
+			return
+		}
 	}
 }
 
